@@ -47,4 +47,9 @@ def run(tier):
                        "out-of-model failure pool)")
     rep.assumptions += ["scripts that fail after a successful redis.call are excluded (Redis does not roll scripts back either)",
                         "MULTI/EXEC at executor level are excluded (C05)"]
+    # node level: a WAL on a misbehaving disk; an error reply and a changed value never go together
+    tr = os.path.join(wd, "node_errs.ndjson")
+    vlib.vh(["node", "errs", "--seed", vlib.seed(), "--n", 2000 if tier == "thorough" else 300, "--out", tr])
+    kc.validate(rep, wd, tr, "node_errors", cfg="KsTraceC17")
+    os.remove(tr)
     return rep.finish()
